@@ -124,7 +124,7 @@ def translate(ctx):
     sys.path.insert(0, os.path.join(ROOT, "tools"))
     import translate as T
     try:
-        results = T.run(REPO, os.path.join(COQ, "gen"))
+        results = T.run(REPO, os.path.join(COQ, "gen"), ctx.prop)
     except Exception as ex:  # a translator crash is a broken translation obligation
         ctx.oblige("translate", "translation", False, "translator raised %r" % (ex,))
         return False
